@@ -332,6 +332,13 @@ impl<'a> Gen<'a> {
             if ra == rb {
                 self.st.bump("branch_eq_true");
             }
+            // the 32-bit product boundary: floor/ceil of sqrt(2^31), both factors
+            if (ra == 46340 || ra == 46341) && (rb == 46340 || rb == 46341) && mm > 46341 {
+                self.st.bump("pair_both_operands_at_sqrt_2^31");
+            }
+            if ra == 46341 && rb == 46341 && mm > 46341 {
+                self.st.bump("pair_46341_x_46341");
+            }
             if gcd_i(rb as i64, m as i64) != 1 {
                 self.st.bump("branch_div_noncoprime");
             }
@@ -491,6 +498,48 @@ fn gen(args: &Args, emit: &mut dyn FnMut(String), st: &mut Stats) {
                 g.io(m, v, "random");
                 let (a, b) = (rand_i64(&mut rng, m), rand_i64(&mut rng, m));
                 g.pair(m, a, b, "random");
+            }
+        }
+    }
+
+    // (2b) interleaving: all cases run in ONE process, so state kept between calls (a cache shared by all
+    //      `Modular<M>` instantiations, a "last answer" cell) shows only when the same operand is used under
+    //      different moduli back to back, or twice in a row under one modulus.  For every ordered pair of moduli
+    //      (small -> large and large -> small) and operands coprime to both: inv, div, mul, pow under M1 then
+    //      immediately under M2, then the same op twice under M2.
+    let inter: [u32; 14] = [2, 3, 5, 7, 8, 9, 64, 15015, 46337, 65536, 998244353, 1000000007, 1073741824, 2147483647];
+    for &m1 in inter.iter() {
+        for &m2 in inter.iter() {
+            if m1 == m2 {
+                continue;
+            }
+            let lim = m1.min(m2) as i64;
+            // operands that are canonical residues of both moduli and coprime to both
+            let mut vs: Vec<i64> = vec![1, 2, 3, 4, 5, 6, lim - 1, lim - 2, lim / 2, 46341, 65537, 1 << 20];
+            let nrand = if thorough { 12 } else { 3 };
+            for _ in 0..nrand {
+                vs.push(rng.range_i64(1, lim - 1));
+            }
+            vs.retain(|v| 0 < *v && *v < lim && gcd_i(*v, m1 as i64) == 1 && gcd_i(*v, m2 as i64) == 1);
+            vs.sort();
+            vs.dedup();
+            for &v in &vs {
+                let a = rng.range_i64(1, lim - 1);
+                let d = *rng.pick(&[2u64, 3, 5, u64::MAX, 1 << 32]);
+                // inverse of the same value under M1, then M2, then M2 again
+                g.un(m1, v, "interleaved");
+                g.un(m2, v, "interleaved");
+                g.un(m2, v, "interleaved");
+                // the same pair (a / v, a * v) under M1, then M2, twice
+                g.pair(m1, a, v, "interleaved");
+                g.pair(m2, a, v, "interleaved");
+                g.pair(m2, a, v, "interleaved");
+                // the same power
+                g.pow(m1, v, d, "interleaved");
+                g.pow(m2, v, d, "interleaved");
+                g.pow(m2, v, d, "interleaved");
+                g.st.bump(if m1 < m2 { "interleave_small_to_large_modulus" } else { "interleave_large_to_small_modulus" });
+                g.st.bump("interleave_same_op_twice_in_a_row");
             }
         }
     }
